@@ -27,7 +27,11 @@ type C07Scenario struct {
 	Src      fstree.Tree `json:"src"`       // what the client tries to upload
 	Mod      fstree.Tree `json:"mod"`       // content of the read-only module
 	FSModule bool        `json:"fs_module"` // the read-only module under attack is fs.FS-backed
-	Tr       Transport   `json:"tr"`
+	// ConnArgs: the embedding program hands the session to
+	// Server.HandleConnArgs with the read-only module (command mode on a
+	// module, public API) instead of the daemon protocol; real client only.
+	ConnArgs bool      `json:"conn_args,omitempty"`
+	Tr       Transport `json:"tr"`
 }
 
 type c07 struct{}
@@ -75,6 +79,9 @@ func (c07) Generate(seed uint64, tier string, index int) any {
 		sc.Flags = args
 	} else {
 		sc.Flags = flags
+	}
+	if !sc.Hostile && !sc.FSModule && g.R.Intn(3) == 0 {
+		sc.ConnArgs = true
 	}
 	sc.Tr = g.TransportFor(12, 64<<10)
 	// the refusal (a short error message) must fit into the server→client
@@ -207,7 +214,10 @@ func (c07) Run(t *testing.T, scenario any, job *Job, res *Result) {
 		}
 		res.Probe("refusals_real_client", 1)
 		res.NonTrivial = true
-		res.Sample = map[string]any{"hostile": false, "flags": sc.Flags, "target": sc.Target, "via_serve": sc.ViaServe, "client_error": out.RefErr.Error()}
+		if sc.ConnArgs {
+			res.Probe("refusals_conn_args", 1)
+		}
+		res.Sample = map[string]any{"hostile": false, "conn_args": sc.ConnArgs, "flags": sc.Flags, "target": sc.Target, "via_serve": sc.ViaServe, "client_error": out.RefErr.Error()}
 		return
 	}
 	out := RunWithRef(t, rr)
@@ -254,6 +264,22 @@ func runRealClientAgainst(t *testing.T, sc *C07Scenario, srv *rsyncd.Server, cli
 		_, err := client.RunDaemon(ctx, end, sc.Target, []string{lay.Src + "/"})
 		return err
 	}
+	if sc.ConnArgs {
+		sub := "/"
+		if i := strings.IndexByte(sc.Target, '/'); i >= 0 && i+1 < len(sc.Target) {
+			sub = sc.Target[i:]
+		}
+		args := client.ServerCommandOptions(sub)
+		mod := &rsyncd.Module{Name: "ro", Path: filepath.Join(lay.Root, "ro")}
+		rr.Serve = nil
+		rr.Real = func(ctx context.Context, end *kernel.End) error {
+			return srv.HandleConnArgs(ctx, rsyncd.NewConnection(end, end, "embedded"), mod, args)
+		}
+		rr.RawRef = func(ctx context.Context, end *kernel.End) error {
+			_, err := client.Run(ctx, end, []string{lay.Src + "/"})
+			return err
+		}
+	}
 	return RunWithRef(t, rr)
 }
 
@@ -278,6 +304,7 @@ var c19RulePool = []string{
 	"allow 192.168.0.0/24", "deny 192.168.0.0/24",
 	"allow 2001:db8::/32", "deny 2001:db8::/32", "allow 2001:db8::1/128", "deny 2001:db8::1/128",
 	"allow ::ffff:10.1.2.0/120", "deny ::ffff:10.0.0.0/104",
+	"permit 10.0.0.0/8", "Deny 192.168.0.0/24", "reject 2001:db8::/32",
 	"allow", "permit all", "deny 10.1.2.3", "allow 10.0.0.0/33", "deny  all", "allow all ", "ALLOW all", "deny 300.1.1.1/8", "",
 }
 
